@@ -4,6 +4,7 @@
 // typed helpers) and C13 (interleavings among several live objects sharing one source).
 #include "../kernel/core.h"
 #include "../seams/env.h"
+#include "../seams/simstream.h"
 #include "Stream/FileReader.h"
 #include "Stream/MemoryReader.h"
 #include "Stream/SliceReader.h"
@@ -462,6 +463,32 @@ struct Exec {
 		} else resync(a, desc, rem);
 	}
 
+	// The NUL-terminated string helper of the reader base class with a second call of the same helper (on another reader, other
+	// bytes) interleaved at one of its stream callbacks: both strings must be right. Uses the stub reader because only its
+	// callbacks are interleaving points; the helper itself is the library's.
+	void typedCstrInterleaved(Actor& a, const Line& op) {
+		uint64_t rem = a.len - a.pos;
+		if (rem < 4) { ctx.event("skip"); return; }
+		size_t n1 = static_cast<size_t>(1 + mix64(plan.seed, a.pos) % std::min<uint64_t>(rem - 1, 300));
+		std::vector<uint8_t> s1(srcAt(a, a.pos), srcAt(a, a.pos) + n1), s2(n1 / 2 + 3);
+		for (auto& c : s1) if (c == 0) c = 1;
+		for (size_t q = 0; q < s2.size(); ++q) s2[q] = static_cast<uint8_t>(1 + (s1[q % s1.size()] * 7 + q) % 250);
+		s1.push_back(0); s2.push_back(0);
+		SimReader outer(s1);
+		std::string inner, got, what;
+		bool ran = false;
+		outer.interleaveAtCall = 1 + mix64(plan.seed, op.u("a", 0) + n1) % n1;
+		outer.interleaveBefore = (mix64(plan.seed, n1) & 1) != 0;
+		outer.interleave = [&] { Stream::MemoryReader r2(s2.data(), s2.size()); inner = r2.ReadNullTerminatedString(); ran = true; };
+		Out o = call([&] { got = outer.ReadNullTerminatedString(); }, &what);
+		std::string desc = "NUL-terminated read of " + std::to_string(n1) + " characters with a second such read interleaved at stream callback " + std::to_string(outer.interleaveAtCall);
+		if (o != OkOut || !outer.interleaveError.empty()) ctx.fail("C12.typed-size", desc + ": failed (" + what + outer.interleaveError + ")");
+		if (got.size() != n1 || memcmp(got.data(), s1.data(), n1) != 0) ctx.fail("C12.typed-size", desc + ": the interrupted read returned a wrong string (length " + std::to_string(got.size()) + ")");
+		if (ran && (inner.size() + 1 != s2.size() || memcmp(inner.data(), s2.data(), inner.size()) != 0)) ctx.fail("C12.typed-size", desc + ": the interleaved read returned a wrong string");
+		if (outer.Position() != n1 + 1) ctx.fail("C12.typed-size", desc + ": consumed " + std::to_string(outer.Position()) + " bytes instead of " + std::to_string(n1 + 1));
+		if (ran) ctx.count("probe.second_operation_interleaved");
+	}
+
 	template <class Cont> void typedSized(Actor& a, const Line& op, const char* name) {
 		typedef typename Cont::value_type E;
 		uint64_t rem = a.len - a.pos;
@@ -504,7 +531,7 @@ struct Exec {
 			// ... and so is the string helper: narrow and wide character types
 			switch (a.pos % 4) { case 0: case 1: typedSized<std::string>(a, op, "string"); break; case 2: typedSized<std::u16string>(a, op, "u16string"); break; default: typedSized<std::u32string>(a, op, "u32string"); break; }
 		}
-		else if (what == "cstr") typedCstr(a, op);
+		else if (what == "cstr") { if (!c13 && (a.pos % 5) == 0) typedCstrInterleaved(a, op); else typedCstr(a, op); }
 		else if (what == "pfx") {
 			std::string st = op.get("st", "u8"), elem = op.get("elem", "1");
 			if (st == "u8") typedPrefixedElem<uint8_t>(a, elem, "u8");
